@@ -162,6 +162,31 @@ fn gen_lexicon(rng: &mut Rng, nid: i64) -> (Lexicon, Vec<String>) {
     (lex, words)
 }
 
+/// User dictionaries over the system lexicon: some of its words moved there, plus words that extend a system
+/// word across a terminator (the longer word lives only in a user dictionary)
+fn gen_users(rng: &mut Rng, nid: i64, sys: &mut Lexicon, words: &mut Vec<String>) -> Vec<Lexicon> {
+    let pool = dictgen::pos_pool();
+    let n = 1 + rng.below(3);
+    let mut users: Vec<Lexicon> = (0..n).map(|_| Lexicon { entries: vec![], user: true }).collect();
+    let mut k = 3;
+    while k < sys.entries.len() {
+        if rng.chance(1, 3) {
+            let e = sys.entries.remove(k);
+            users[rng.below(n)].entries.push(e);
+        } else {
+            k += 1;
+        }
+    }
+    for w in ["東京。府", "あい！う", "うえ?", "東京！", "あい。", "都。。", "です。よ"] {
+        if rng.chance(1, 2) {
+            users[rng.below(n)].entries.push(Entry::simple(w, rng.range(0, nid - 1) as i16, rng.range(0, nid - 1) as i16, rng.range(0, 5000) as i16, rng.pick(&pool)));
+            words.push(w.to_string());
+        }
+    }
+    users.retain(|u| !u.entries.is_empty());
+    users
+}
+
 fn gen_text(rng: &mut Rng, words: &[String], max_parts: usize) -> String {
     let mut s = String::new();
     for _ in 0..rng.below(max_parts + 1) {
@@ -311,8 +336,13 @@ pub fn run(ctx: &Ctx, rep: &mut Report) {
         rep.progress_idx(wi, "C16 lexicon");
         let dopts = DictOpts { splits: false, ..DictOpts::default() };
         let matrix = dictgen::gen_matrix(&mut rng, &dopts);
-        let (lex, words) = gen_lexicon(&mut rng, matrix.nid() as i64);
-        let world = match guard(|| build_world_from(&mut rng, &dopts, matrix, lex, PluginOpts::none(), Place::Owned)) {
+        let (mut lex, mut words) = gen_lexicon(&mut rng, matrix.nid() as i64);
+        // every second lexicon is layered: part of the words (and longer words over system words) in user dictionaries
+        let users = if wi % 2 == 1 { Some(gen_users(&mut rng, matrix.nid() as i64, &mut lex, &mut words)) } else { None };
+        if users.as_ref().map(|u| !u.is_empty()).unwrap_or(false) {
+            rep.count("lexicons_with_user_dictionaries", 1);
+        }
+        let world = match guard(|| crate::scen::build_world_users(&mut rng, &dopts, matrix, lex, users, PluginOpts::none(), Place::Owned)) {
             Ok(Ok(w)) => w,
             Ok(Err(e)) => {
                 rep.notes.push(format!("world {}: {}", wi, clip(&e, 200)));
